@@ -200,13 +200,16 @@ def gen_sequence(loader, check, replay_on=True):
     check.ob("Sequence.__init__#loop.paths", "any", [], {"loop-step", "return"} <= seen, detail=str(seen))
 
     # ---- il_write: SEQN(n, e1..en) in order, n == number of arguments (lengths 1..6; the function is a join) ------
-    for n in range(1, 7):
-        inst = f"effects={n}"
+    for n, with_pure in [(k, False) for k in range(1, 7)] + [(1, True), (2, True), (3, True)]:
+        # with_pure: a statement that is not an effect (a declaration without initialiser, a bare expression) stands among the effects:
+        # it is an operand of the sequence (effect_ops) but not one of its effects
+        inst = f"effects={n}" + (" and a non-effect statement among them" if with_pure else "")
         check.instances_declared += 1
 
-        def setup(it, n=n):
+        def setup(it, n=n, with_pure=with_pure):
             effs = [mk_effect(it, loader, "NOP" if i % 2 else "Assignment", f"e{i}") for i in range(n)]
-            s = it.call(Seq, ["seq", effs], {})
+            items = effs[:1] + [irkit.mk_operand(it, "Variable", (True, 32), "decl")] + effs[1:] if with_pure else effs
+            s = it.call(Seq, ["seq", items], {})
             it.ctx.mark_pre(s)
             return {"s": s, "effs": effs}
         ex = explore(loader, setup, lambda it, st: it.call(it.getattr_(st["s"], "il_write"), [], {}))
@@ -245,7 +248,10 @@ def gen_sequence(loader, check, replay_on=True):
         s = Obj(Seq, label="seq")
         effs = AbsSeq("effects", EffLoop())
         it.ctx.assume(effs.length >= 1)           # class invariant established by __init__ (an empty list becomes [Empty])
-        s.fields.update({"effects": effs, "name": "seq", "effect_ops": effs})
+        # effect_ops = the non-effect statements followed by the effects (class invariant of __init__): a list of its own, at least as long
+        ops = AbsSeq("effect_ops", EffLoop())
+        it.ctx.assume(ops.length >= effs.length)
+        s.fields.update({"effects": effs, "name": "seq", "effect_ops": ops})
         return {"s": s, "effs": effs}
     ex = explore(loader, setup_any, lambda it, st: it.call(it.getattr_(st["s"], "il_write"), [], {}))
     check.absorb(ex, "Sequence.il_write any length")
@@ -284,8 +290,10 @@ def gen_effect_emission(loader, check, replay_on=True):
     Br, Fl, Asg = irkit.C(loader, "Branch"), irkit.C(loader, "ForLoop"), irkit.C(loader, "Assignment")
     check.under_contract(loader, Br.methods["__init__"], Br.methods["il_write"], Fl.methods["__init__"], Fl.methods["il_write"],
                          Asg.methods["__init__"], Asg.methods["il_write"], Asg.methods["set_src"], Asg.methods["set_dest"])
-    for ck in ["Variable", "Register", "Number", "Cast", "CompareOp", "BooleanOp", "Bool", "HybridTmp"]:
+    for ck in ["Variable", "Register", "PredRegister", "Number", "Cast", "CompareOp", "BooleanOp", "Bool", "HybridTmp"]:
         for ct in ((True, 32), (False, 8), (True, 64)):
+            if ck == "PredRegister" and ct != (False, 8):
+                continue
             inst = f"cond={ck}:{tname(ct)}"
             for what in ("Branch", "ForLoop"):
                 check.instances_declared += 1
@@ -328,7 +336,10 @@ def gen_effect_emission(loader, check, replay_on=True):
                     c = p.state["c"]
                     cv = rzil.Evaluator().ev(term[2][0])
                     want = c.ghost["den"] if c.ghost["sort"] == "bool" else (c.ghost["den"] != 0)
-                    check.ob(f"{name}#condition-is-C-truth-of-cond", pi, p.ctx.pc, cv.v == want, replay=rp, detail=t.render())
+                    rpt = rp
+                    if replay_on and ck in ("Register", "PredRegister"):
+                        rpt = ("c05.cond_truth", lambda mdl, ck=ck, ct=ct, what=what: {"what": what, "cond_kind": ck, "ct": list(ct), "c": int(mdl.get("c", 0))})
+                    check.ob(f"{name}#condition-is-C-truth-of-cond", pi, p.ctx.pc, cv.v == want, replay=rpt, detail=t.render())
                     # linearity: the condition is read exactly once and that text is embedded exactly once; each arm is referenced once
                     reads = [(a.tag, a.ordinal) for a in t.atoms() if a.kind == "read"]
                     rpl = ("c05.cond_once", lambda mdl, ck=ck, what=what: {"what": what, "cond_kind": ck}) if replay_on else None
@@ -1007,6 +1018,35 @@ def replay_cond_once(a):
     return not (raw == 1 and dups == 0), f"{a['what']}.il_write() with the unconsumed condition {var} = {txt}: {raw} raw use(s), {dups} DUP(s)"
 
 
+@replay.register("c05.cond_truth")
+def replay_cond_truth(a):
+    """real Branch / ForLoop over a real register operand (general or predicate): the emitted condition, with the register's variable
+    replaced by the model's value, must be true exactly when that value is non-zero"""
+    from rzilcompiler.Transformer.Effects.Branch import Branch
+    from rzilcompiler.Transformer.Effects.ForLoop import ForLoop
+    from rzilcompiler.Transformer.Effects.NOP import NOP
+    from rzilcompiler.Transformer.Pures.Register import Register, RegisterAccessType
+    from rzilcompiler.Transformer.ValueType import ValueType
+    ct = tuple(a["ct"])
+    c = Register("Pu" if a["cond_kind"] == "PredRegister" else "Rs", RegisterAccessType.R, ValueType(*ct))
+    n = Branch("b", c, NOP("t"), NOP("e")) if a["what"] == "Branch" else ForLoop("f", c, NOP("t"))
+    txt = n.il_write()
+    inner = txt[txt.index("(") + 1:]
+    depth, i = 0, 0
+    for i, ch in enumerate(inner):
+        if ch == "(":
+            depth += 1
+        elif ch == ")":
+            depth -= 1
+        elif ch == "," and depth == 0:
+            break
+    v = a["c"] % (2 ** ct[1])
+    lit = f"{'SN' if ct[0] else 'UN'}({ct[1]}, {v - 2 ** ct[1] if ct[0] and v >> (ct[1] - 1) else v})"
+    cond = re.sub(r"(?<![A-Za-z0-9_])" + re.escape(c.pure_var()) + r"(?![A-Za-z0-9_])", lit, inner[:i])
+    srt, val, err = irkit.eval_text_concrete(cond, {}, {})
+    return err is not None or bool(val) != (v != 0), f"{a['what']}.il_write() = {txt}; with {c.pure_var()} = {v:#x} the condition {cond} is {val} ({err or srt}); C truth {v != 0}"
+
+
 @replay.register("c05.effect_text")
 def replay_effect_text(a):
     from rzilcompiler.Transformer.Effects.Branch import Branch
@@ -1029,7 +1069,8 @@ def replay_effect_text(a):
         elif ch == "," and depth == 0:
             break
     cond = inner[:i]
-    srt, _, err = irkit.eval_text_concrete(cond, irkit.spec_leaves(spec), {})
+    leaves = irkit.spec_leaves(spec)
+    srt, _, err = irkit.eval_text_concrete(cond, leaves, {n: 1 for n in leaves})     # the sort is what this replay decides; any ground values do
     return err is not None or srt != "bool", f"{a['what']}.il_write() = {txt}; condition {cond}: {err or srt}"
 
 
